@@ -27,6 +27,7 @@ import traceback
 import numpy as np
 
 ROOT = os.environ.get("OASMC_ROOT", "/verif")
+REPO_OAS = os.path.realpath(os.environ.get("OASMC_REPO", "/repo")) + "/openaerostruct"
 
 
 class InternalError(Exception):
@@ -89,7 +90,7 @@ def oas_origin(tb):
     frames = traceback.extract_tb(tb)
     for fr in reversed(frames):
         fn = fr.filename
-        if "/repo/openaerostruct" in fn:
+        if REPO_OAS in fn:
             return True
         if "/oasmc/" in fn:
             return False
@@ -104,7 +105,7 @@ def _safe_run(state):
         et, ev, tb = sys.exc_info()
         txt = "".join(traceback.format_exception(et, ev, tb))
         if oas_origin(tb):
-            last = [f for f in traceback.extract_tb(tb) if "/repo/openaerostruct" in f.filename][-1]
+            last = [f for f in traceback.extract_tb(tb) if REPO_OAS in f.filename][-1]
             r = dict(
                 viol=[
                     dict(
@@ -121,7 +122,22 @@ def _safe_run(state):
         else:
             r = dict(error=txt)
     r["wall"] = time.time() - t0
+    # which worker ran this state, and as its how-manyth: lets the runner reconstruct what the same process had
+    # executed before (a violation that needs that prefix is a dependence on hidden process-level state)
+    global _SEQ
+    _SEQ += 1
+    r["_pid"], r["_seq"] = os.getpid(), _SEQ
     return r
+
+
+_SEQ = 0
+
+
+def worker_prefix(states, results, i):
+    """the states executed before state i by the same worker process, in execution order"""
+    pid, seq = results[i].get("_pid"), results[i].get("_seq", 0)
+    prev = [(r.get("_seq", 0), k) for k, r in enumerate(results) if r.get("_pid") == pid and r.get("_seq", 0) < seq]
+    return [states[k] for _, k in sorted(prev)]
 
 
 def run_one(check, state):
